@@ -94,9 +94,60 @@ def run(rep):
             idx += 1
     results = common.pmap(harvest._hjob, jobs)
     harvest.collect(rep, results, key)
+    int_then_float_labels(rep)
+
+
+def int_then_float_labels(rep):
+    """Labels that start as integers and become non-integral floats, through both entry points and both engines: what is
+    saved and loaded again must carry exactly the labels harvested (MemEqDisk / NothingDropped on label level)."""
+    import os
+    import shutil
+    import tempfile
+    import contextlib
+    import io
+    xyz = common.use_repo()
+
+    def f(a):
+        return 10.0 * a
+    for eng in ("h5netcdf", "joblib"):
+        for how in ("save_merge_ds", "harvester", "harvester_sessions"):
+            tmp = tempfile.mkdtemp(prefix="c05l-", dir=common.scratch("harv"))
+            try:
+                name = os.path.join(tmp, "data")
+                case = dict(kind="int_then_float_labels", engine=eng, how=how)
+                rep.add_case(["int_then_float_labels", eng, how], sample=None)
+                r = xyz.Runner(f, var_names="x")
+                steps = [[1, 2], [2.5], [0.25, 3]]
+                try:
+                    with contextlib.redirect_stdout(io.StringIO()), contextlib.redirect_stderr(io.StringIO()):
+                        h = xyz.Harvester(r, name, engine=eng)
+                        for vals in steps:
+                            if how == "save_merge_ds":
+                                xyz.save_merge_ds(r.run_combos({"a": vals}, verbosity=0), name, engine=eng)
+                            else:
+                                if how == "harvester_sessions":
+                                    h = xyz.Harvester(r, name, engine=eng)
+                                h.harvest_combos({"a": vals}, verbosity=0)
+                        ds = xyz.load_ds(name, engine=eng)
+                except Exception as e:  # noqa
+                    rep.add_violation(case, "%s with %s, disjoint labels [1, 2] then [2.5] then [0.25, 3] (default policy): raised %s: %s" % (
+                        how, eng, type(e).__name__, str(e)[:200]), key=dict(tag="raise", kind="int_then_float_labels", engine=eng))
+                    continue
+                got = sorted(float(v) for v in ds["a"].values)
+                gotx = {float(a): float(ds["x"].sel(a=a).values) for a in ds["a"].values}
+                ds.close()
+                want = sorted(float(v) for vs in steps for v in vs)
+                if got != want or any(gotx.get(a) != 10.0 * a for a in want):
+                    rep.add_violation(case, "%s with %s, labels [1, 2] then [2.5] then [0.25, 3]: the file holds a=%r x=%r, harvested were %r" % (
+                        how, eng, got, gotx, want), key=dict(tag="disk_value", kind="int_then_float_labels", engine=eng))
+            finally:
+                shutil.rmtree(tmp, ignore_errors=True)
 
 
 def replay(rep, saved):
+    if saved.get("kind") == "int_then_float_labels":
+        int_then_float_labels(rep)
+        return
     case = saved["case"]
     avals = sorted({a for ev in case["hist"] for a in ([1, 2, 3])})
     prob, tag, step, notes = harvest.replay_h(case, saved["variant"], points([1, 2, 3], [1, 2, 3]))
